@@ -5,6 +5,7 @@
 From Coq Require Import List String Bool.
 Import ListNotations.
 Require Import Registry GenHistory CallGraph GenCalls Dispatch Confinement ConfineLemmas ConfineSafe ConfineUnsafe ConfineC.
+Require Construct ConstructLemmas.
 Open Scope string_scope.
 
 (* KIND C01_safe_dispatch_closed : U *)
@@ -40,6 +41,19 @@ Theorem C01_c_loaders_share_constructors :
   forallb (fun x => negb (String.eqb (fst (fst x)) "Constructor")) methods = true /\
   forallb (fun k => match own_of "Constructor" k (own w0) with None => true | Some _ => false end) [KCtor; KMultiCtor] = true.
 Proof. exact l_c_loaders_share_constructors. Qed.
+
+(* KIND C01_model_unknown_tag_rejected : U *)
+(* value level, on the validated composer/constructor model (Model/Construct.v, safe variant): in EVERY constructor state, a
+   node that is neither cached nor under construction and whose tag is not one of the 12 core tags makes construct_object
+   fail with a ConstructorError - nothing is allocated, no converter runs.  (Errors propagate through every bind of the model,
+   so a document with such a node reached by construct_object does not load; the contexts in which the implementation does
+   NOT reach the node through construct_object - merge sources, `=` values - are the known findings.) *)
+Theorem C01_model_unknown_tag_rejected : forall f id s n,
+  Construct.assoc_id id (Construct.cache s) = None -> existsb (Nat.eqb id) (Construct.recursive s) = false ->
+  nth_error (Construct.nodes s) id = Some n -> ConstructLemmas.is_core (Construct.n_tag n) = false ->
+  Construct.construct_object (S f) false id s = Construct.LConstructor 8.
+Proof. exact ConstructLemmas.l_unknown_tag_rejected. Qed.
+Eval vm_compute in "ASSUME:C01_model_unknown_tag_rejected". Print Assumptions C01_model_unknown_tag_rejected.
 
 (* PARTIAL: safe_construct_plain (every value built is plain, effect trace empty) and unknown_tag_rejected for every nesting are not
    proved over the constructor model; they are decided by the construct correspondence (type-strict graphs) and the direct run under audit
